@@ -212,6 +212,10 @@ func runC08(p *Prog, r *Result) {
 	r.Rule("R08b", "reset() dominates every other receiver write in the entry points; other exported methods reach the lexer only through them", 10)
 	r.Rule("R08f", "InteractiveSeq yields every statement it accumulated on every path to the iterator's end (stopped consumer, recorded error and empty accumulator aside)", 1)
 	checkInteractiveHandsOver(p, r, pkg, "R08f")
+	r.Rule("R08g", "a field fill() increments on an empty read and compares with a limit is set back to zero when a read returns bytes: a long streamed or interactive session is not cut off by a count that runs over the whole input (shared with C07 R07e)", 0)
+	if n := checkRetryCounterReset(p, r, pkg, "R08g"); n == 0 {
+		r.Notef("R08g: fill() keeps no count of empty reads on this tree; the rule is armed by a control under C07")
+	}
 	r.Rule("R08c", "sibling agreement Parse / StmtsSeq: same sequence reset, rune, next, statements, doHeredocs under err == nil", 2)
 	r.Rule("R08e", "every newLit() is followed on every path by endLit(), a discard or an error report, so Incomplete() cannot stay true after a completed statement (shared with C10 R10c)", 15)
 	r.Rule("R08d", "every increment of openNodes/openBquotes/openBquoteDbls is followed by its decrement on every path to the exit", 4)
